@@ -72,6 +72,8 @@ def exec_for(ex, n: ast.For, p):
         seq = ex.as_list(seqv, p1, n)
         if seq.concrete:
             out += unroll(ex, n, seq, p1)
+        elif isinstance(seq.tag, tuple) and seq.tag[0] == "pairs":
+            out += summarise_pairs(ex, n, seq, p1)
         else:
             out += summarise(ex, n, seq, p1)
     return out
@@ -386,3 +388,77 @@ def _filtered_list(ex, elt, g, seq: Lst, p):
                                    z3.And(pos(jj) >= 0, pos(jj) < m, src(pos(jj)) == jj))),
     ])
     return Lst(n=m, at=lambda i: item_at(src(i)), tag=("filter", src, pos))
+
+
+# ----------------------------------------------------------------------------- loops over all index pairs i < j
+def pairs_handler(ex, p, args, kw, node):
+    """itertools.combinations(enumerate(xs), 2) (assumed: every (i, xs[i]), (j, xs[j]) with i < j exactly once,
+    lexicographically): a list tagged so that `for` summarises it over the two indices"""
+    xs, r = args
+    if not (isinstance(r, Num) and z3.is_int_value(z3.simplify(r.t)) and z3.simplify(r.t).as_long() == 2):
+        raise Unsupported("combinations with r != 2")
+    base = xs.tag[1] if isinstance(xs, Lst) and isinstance(xs.tag, tuple) and xs.tag[0] == "enumerate" else None
+    if base is None:
+        raise Unsupported("combinations over something else than enumerate(xs)")
+    ex.trace["assumed"].add("itertools.combinations(enumerate(xs), 2) yields every pair of positions i < j exactly once")
+    cnt = ex.fresh_sym(z3.IntSort(), "npairs", node)
+    return [(p, Lst(n=cnt, at=None, tag=("pairs", base)))]
+
+
+def summarise_pairs(ex, n: ast.For, seq: Lst, p):
+    """`for (i, xi), (j, xj) in combinations(enumerate(xs), 2)`: the body is executed for a generic pair i < j;
+    it may only `continue` and append/extend local lists.  Each such list becomes a *pair accumulator* (consumed by
+    the sparse-matrix constructor's contract): for every pair, in order, the items the body appended."""
+    xs = seq.tag[1]
+    N = xs.length()
+    loop_id = next(_loop_ids)
+    accs = accumulator_names(n.body, p.env)
+    temps = (assigned_names(n.body) | _target_names(n.target)) - accs
+    base_env = dict(p.env)
+    for t in temps:
+        base_env[t] = Poison(t)
+
+    def body_at(i, j):
+        env = dict(base_env)
+        for a in accs:
+            env[a] = Lst(items=[])
+        start = symex.Path(p.cond + [i >= 0, i < j, j < N], env, None, p.heap)
+        sub = ex.child()
+        sub.index_ctx = ex.index_ctx + [i, j]
+        sub.loop_tag = ex.loop_tag + (loop_id,)
+        item = Tup([Tup([Num(i), xs.at(i)]), Tup([Num(j), xs.at(j)])])
+        falls, exits = run_iteration(sub, n, item, start)
+        if exits:
+            raise Unsupported(f"{ex.module.name}:{n.lineno}: exit from a loop over index pairs")
+        return falls, sub
+
+    i0, j0 = z3.Int(fresh_name(f"pi{loop_id}")), z3.Int(fresh_name(f"pj{loop_id}"))
+    falls, sub = body_at(i0, j0)
+    ex.side += sub.side
+    for o in sub.outcomes:
+        ex.outcomes.append(o)
+    base = len(p.cond) + 3
+    for a in accs:
+        if not isinstance(p.env[a], Lst) or not p.env[a].concrete or p.env[a].items:
+            raise Unsupported("pair accumulator must start empty")
+        for f in falls:
+            if not f.env[a].concrete:
+                raise Unsupported("symbolic growth in a pair loop")
+
+    def info(a):
+        def items_at(i, j):
+            """[(condition, [items appended])] for pair (i, j)"""
+            fs, _ = body_at(i, j)
+            out = []
+            for f in fs:
+                e = f.cond[base:]
+                out.append((z3.And(*e) if e else z3.BoolVal(True), f.env[a].items))
+            return out
+        return dict(n=N, items_at=items_at, loop=loop_id, xs=xs)
+
+    env = dict(p.env)
+    for t in temps:
+        env[t] = Poison(t)
+    for a in accs:
+        env[a] = Lst(n=ex.fresh_sym(z3.IntSort(), f"len_{a}", n), at=None, tag=("pairacc", info(a)))
+    return [symex.Path(p.cond, env, p.yields, p.heap)]
